@@ -207,32 +207,35 @@ class InotifyEmitter(EventEmitter):
         if self._event_filter is None:
             return None
 
-        # Always listen to delete self
-        event_mask = InotifyConstants.IN_DELETE_SELF
+        # Always listen to delete self, and to what is needed to follow the directory tree
+        # (new and renamed directories) and to tell a rename from a move out of the tree.
+        event_mask = InotifyConstants.IN_DELETE_SELF | InotifyConstants.IN_CREATE | InotifyConstants.IN_MOVE
 
+        native_masks: dict[type[FileSystemEvent], int] = {
+            DirMovedEvent: InotifyConstants.IN_MOVE,
+            FileMovedEvent: InotifyConstants.IN_MOVE,
+            DirCreatedEvent: InotifyConstants.IN_MOVE | InotifyConstants.IN_CREATE,
+            FileCreatedEvent: InotifyConstants.IN_MOVE | InotifyConstants.IN_CREATE,
+            DirModifiedEvent: (
+                InotifyConstants.IN_MOVE
+                | InotifyConstants.IN_ATTRIB
+                | InotifyConstants.IN_MODIFY
+                | InotifyConstants.IN_CREATE
+                | InotifyConstants.IN_DELETE
+                | InotifyConstants.IN_CLOSE_WRITE
+            ),
+            FileModifiedEvent: InotifyConstants.IN_ATTRIB | InotifyConstants.IN_MODIFY,
+            DirDeletedEvent: InotifyConstants.IN_DELETE | InotifyConstants.IN_MOVE,
+            FileDeletedEvent: InotifyConstants.IN_DELETE | InotifyConstants.IN_MOVE,
+            FileClosedEvent: InotifyConstants.IN_CLOSE_WRITE,
+            FileClosedNoWriteEvent: InotifyConstants.IN_CLOSE_NOWRITE,
+            FileOpenedEvent: InotifyConstants.IN_OPEN,
+        }
         for cls in self._event_filter:
-            if cls in {DirMovedEvent, FileMovedEvent}:
-                event_mask |= InotifyConstants.IN_MOVE
-            elif cls in {DirCreatedEvent, FileCreatedEvent}:
-                event_mask |= InotifyConstants.IN_MOVE | InotifyConstants.IN_CREATE
-            elif cls is DirModifiedEvent:
-                event_mask |= (
-                    InotifyConstants.IN_MOVE
-                    | InotifyConstants.IN_ATTRIB
-                    | InotifyConstants.IN_MODIFY
-                    | InotifyConstants.IN_CREATE
-                    | InotifyConstants.IN_CLOSE_WRITE
-                )
-            elif cls is FileModifiedEvent:
-                event_mask |= InotifyConstants.IN_ATTRIB | InotifyConstants.IN_MODIFY
-            elif cls in {DirDeletedEvent, FileDeletedEvent}:
-                event_mask |= InotifyConstants.IN_DELETE
-            elif cls is FileClosedEvent:
-                event_mask |= InotifyConstants.IN_CLOSE_WRITE
-            elif cls is FileClosedNoWriteEvent:
-                event_mask |= InotifyConstants.IN_CLOSE_NOWRITE
-            elif cls is FileOpenedEvent:
-                event_mask |= InotifyConstants.IN_OPEN
+            # A base class in the filter stands for all its concrete event classes.
+            for concrete, native_mask in native_masks.items():
+                if issubclass(concrete, cls):
+                    event_mask |= native_mask
 
         return event_mask
 
